@@ -319,5 +319,254 @@ pub proof fn lemma_evict_keeps<K, V: VSink<Item>, Item>(old: Seq<(K, V)>, before
     }
 }
 
+// ------------------------------------------------------------------------------------------
+// pubsub::Topic
+// ------------------------------------------------------------------------------------------
+//@consts server/src/topic/pubsub.rs
+//@type server/src/topic/pubsub.rs :: Socket
+//@type server/src/topic/pubsub.rs :: Topic
+
+impl<T, E> mpsc::Carried for Socket<T, E> {
+    open spec fn carried_budget(&self) -> nat { match self { Socket::Stream(st) => st.budget(), Socket::Sink(_) => 0 } }
+    // a peer's history starts when it is handed to the router
+    open spec fn fresh(&self) -> bool { match self { Socket::Sink(si) => si.sent() =~= Seq::<T>::empty() && si.flushed() == 0, _ => true } }
+    open spec fn coop(&self) -> bool { match self { Socket::Sink(si) => si.cooperative(), _ => true } }
+}
+
+// Ok items among what the publisher streams yielded, in yield order: "every message the server accepts from a publisher"
+pub open spec fn oks<T>(y: Seq<Result<T>>) -> Seq<T>
+    decreases y.len()
+{
+    if y.len() == 0 { Seq::empty() } else {
+        match y.last() { Ok(x) => oks(y.drop_last()).push(x), Err(_) => oks(y.drop_last()) }
+    }
+}
+pub proof fn lemma_oks_push<T>(y: Seq<Result<T>>, r: Result<T>)
+    ensures oks(y.push(r)) == (match r { Ok(x) => oks(y).push(x), Err(_) => oks(y) })
+{
+    assert(y.push(r).drop_last() =~= y);
+}
+// what has been handed to the fan-out, given what was accepted (a) and what is still buffered (b)
+pub open spec fn handed<T>(a: Seq<T>, b: Option<T>) -> Seq<T> { if b is Some { a.drop_last() } else { a } }
+
+// e was registered during this call (key not below the old counter) and received a contiguous run D[j..] from its registration on
+pub open spec fn joined<V: VSink<T>, T>(e: (usize, V), old_next: usize, d: Seq<T>) -> bool {
+    e.0 >= old_next && exists|j: int| 0 <= j <= d.len() && e.1.sent() =~= #[trigger] d.subrange(j, d.len() as int)
+}
+pub open spec fn tracked<V: VSink<T>, T>(e: (usize, V), old: Seq<(usize, V)>, old_next: usize, d: Seq<T>) -> bool {
+    grew::<usize, V, T>(e, old, d) || joined::<V, T>(e, old_next, d)
+}
+
+impl<T, E> Topic<T, E> {
+    pub open spec fn accepted(&self) -> Seq<T> { oks(self.stream.yielded()) }
+    pub open spec fn h(&self) -> Seq<T> { handed(self.accepted(), self.buffered_item) }
+    pub open spec fn inv(&self) -> bool {
+        &&& self.sink.wf()
+        &&& (self.buffered_item is Some ==> self.accepted().len() > 0 && self.accepted().last() == self.buffered_item->Some_0)
+        &&& forall|i: int| 0 <= i < self.sink.entries@.len() ==> (#[trigger] self.sink.entries@[i]).0 < self.next_sink_id
+        // fewer than 2^64 registrations over the life of a topic (stated assumption): counters never wrap
+        &&& self.next_sink_id + self.next_stream_id + self.handle.budget() < usize::MAX
+    }
+    pub open spec fn idle_armed(&self, cx: Context) -> bool {
+        &&& self.buffered_item is None
+        &&& self.sink.all_flushed::<T>()
+        &&& cx.armed_src().contains(SRC_HANDLE())
+        &&& (self.stream.empty() || cx.armed_src().contains(SRC_STREAMS()))
+    }
+    pub open spec fn delta(&self, o: &Self) -> Seq<T> { self.h().subrange(o.h().len() as int, self.h().len() as int) }
+}
+
+//@fn server/src/topic/pubsub.rs :: Topic :: pair [props=C01 C16]
+    ensures
+        r.0.inv(), r.0.buffered_item is None, r.0.accepted() =~= Seq::<T>::empty(), r.0.sink.entries@.len() == 0,
+//@hint before "let (tx, rx)"
+    proof { assert(oks(Seq::<Result<T>>::empty()) =~= Seq::<T>::empty()); }
+//@end
+
+//@fn server/src/topic/pubsub.rs :: Future for Topic :: poll [props=C01 C08 C09 C16]
+    requires
+        old(self).inv(),
+    ensures
+        final(self).inv(),
+        // (d) accepted messages only grow, and everything handed over before stays handed over, in the same order
+        old(self).h().len() <= final(self).h().len() && final(self).h().subrange(0, old(self).h().len() as int) =~= old(self).h(),          // [C01.accept_order_is_append_only]
+        // (a)+(b): every subscriber present afterwards either was present before and received exactly the messages handed over
+        // during this call, in order, each once -- or registered during this call and received a contiguous run from its registration on
+        forall|i: int| 0 <= i < final(self).sink.entries@.len() ==>
+            tracked::<BoxSink<T, E>, T>(#[trigger] final(self).sink.entries@[i], old(self).sink.entries@, old(self).next_sink_id, final(self).delta(old(self))),   // [C01.exactly_once_in_order C08.others_unaffected]
+        // (c) a subscriber that stays healthy is never dropped
+        healthy_survive::<usize, BoxSink<T, E>, T>(old(self).sink.entries@, final(self).sink.entries@),                                      // [C08.only_failed_evicted]
+        // no lost wake-up: a Pending return is either blocked on a subscriber that holds our waker, or idle with every source armed
+        r is Pending ==> some_blocked::<usize, BoxSink<T, E>, T>(final(self).sink.entries@, *final(cx)) || final(self).idle_armed(*final(cx)),   // [C09.pending_has_armed_waker C01.nothing_left_unflushed]
+        // termination of the router: only after the registration channel is closed, with nothing buffered and everything flushed
+        r is Ready ==> old(self).handle.closed() && final(self).buffered_item is None && final(self).sink.all_flushed::<T>(),             // [C16.finishes_only_flushed C01.nothing_left_unflushed]
+        // shutdown cannot hang: channel closed and subscribers able to accept data ==> this step finishes
+        old(self).handle.closed() && old(self).handle.coop() && old(self).sink.all_coop::<T>() ==> r is Ready,                             // [C16.closed_and_cooperative_finishes]
+//@loop 1
+        invariant
+            self.inv(), old(self).inv(),
+            old(self).h().len() <= self.h().len() && self.h().subrange(0, old(self).h().len() as int) =~= old(self).h(),
+            forall|i: int| 0 <= i < self.sink.entries@.len() ==>
+                tracked::<BoxSink<T, E>, T>(#[trigger] self.sink.entries@[i], old(self).sink.entries@, old(self).next_sink_id, self.delta(old(self))),
+            healthy_survive::<usize, BoxSink<T, E>, T>(old(self).sink.entries@, self.sink.entries@),
+            self.next_sink_id >= old(self).next_sink_id,
+            self.handle.closed() == old(self).handle.closed(), self.handle.coop() == old(self).handle.coop(),
+            old(self).handle.coop() && old(self).sink.all_coop::<T>() ==> self.sink.all_coop::<T>(),
+        decreases self.handle.budget() + self.stream.budget()
+//@hint before "ready!(self.sink.poll_ready(cx)).unwrap();"
+                let ghost before = self.sink.entries@;
+                let ghost d0 = self.delta(old(self));
+//@hint after "ready!(self.sink.poll_ready(cx)).unwrap();"
+                let ghost mid = self.sink.entries@;
+                let ghost it = self.buffered_item->Some_0;
+                proof { lemma_after_poll::<BoxSink<T, E>, T>(mid, before, old(self).sink.entries@, old(self).next_sink_id, self.next_sink_id, d0); }
+//@hint after "self.sink.start_send(self.buffered_item.take().unwrap()).unwrap();"
+                proof {
+                    assert(self.delta(old(self)) =~= d0.push(it));
+                    lemma_after_send::<BoxSink<T, E>, T>(self.sink.entries@, mid, old(self).sink.entries@, old(self).next_sink_id, self.next_sink_id, d0, it);
+                }
+//@hint before "self.sink.insert(self.next_sink_id, si);"
+                        let ghost before = self.sink.entries@;
+                        let ghost d0 = self.delta(old(self));
+//@hint after "self.sink.insert(self.next_sink_id, si);"
+                        proof { lemma_after_insert::<BoxSink<T, E>, T>(self.sink.entries@, before, old(self).sink.entries@, old(self).next_sink_id, self.next_sink_id, si, d0); }
+//@hint before "ready!(self.sink.poll_flush(cx)).unwrap()"
+                let ghost before = self.sink.entries@;
+                let ghost d0 = self.delta(old(self));
+//@hint after "ready!(self.sink.poll_flush(cx)).unwrap()"
+                proof { lemma_after_poll::<BoxSink<T, E>, T>(self.sink.entries@, before, old(self).sink.entries@, old(self).next_sink_id, self.next_sink_id, d0); }
+//@hint before "match self.stream.poll_next(cx)"
+        let ghost y0 = self.stream.yielded();
+//@hint arm "Poll::Ready(Some((_, Ok(item)))) => self.buffered_item = Some(item)"
+                proof { lemma_oks_push::<T>(y0, Ok(item)); assert(oks(y0).push(item).drop_last() =~= oks(y0)); }
+//@hint arm "Poll::Ready(Some((_, Err(e)))) =>"
+                proof { lemma_oks_push::<T>(y0, Err(e)); }
+//@end
+
+// ---- lemmas lifting the FanoutMany contracts through one router step ----
+pub open spec fn keys_below<V>(s: Seq<(usize, V)>, n: usize) -> bool { forall|i: int| 0 <= i < s.len() ==> (#[trigger] s[i]).0 < n }
+pub open spec fn all_coop_seq<V: VSink<T>, T>(s: Seq<(usize, V)>) -> bool { forall|i: int| 0 <= i < s.len() ==> (#[trigger] s[i]).1.cooperative() }
+
+// after poll_ready / poll_flush on the fan-out (cur descends from before with nothing handed over)
+pub proof fn lemma_after_poll<V: VSink<T>, T>(cur: Seq<(usize, V)>, before: Seq<(usize, V)>, old: Seq<(usize, V)>, old_next: usize, next: usize, d: Seq<T>)
+    requires
+        keys_distinct(old), keys_below(old, old_next), keys_below(before, next), keys_distinct(before),
+        forall|i: int| 0 <= i < before.len() ==> tracked::<V, T>(#[trigger] before[i], old, old_next, d),
+        healthy_survive::<usize, V, T>(old, before),
+        forall|i: int| 0 <= i < cur.len() ==> grew::<usize, V, T>(#[trigger] cur[i], before, Seq::empty()),
+        healthy_survive::<usize, V, T>(before, cur),
+    ensures
+        forall|i: int| 0 <= i < cur.len() ==> tracked::<V, T>(#[trigger] cur[i], old, old_next, d),
+        healthy_survive::<usize, V, T>(old, cur),
+        keys_below(cur, next),
+        all_coop_seq::<V, T>(before) ==> all_coop_seq::<V, T>(cur),
+{
+    assert forall|i: int| 0 <= i < cur.len() implies tracked::<V, T>(#[trigger] cur[i], old, old_next, d) && cur[i].0 < next
+        && (all_coop_seq::<V, T>(before) ==> cur[i].1.cooperative()) by {
+        let e = cur[i];
+        let jb = choose|j: int| 0 <= j < before.len() && (#[trigger] before[j]).0 == e.0 && same_peer::<V, T>(e.1, before[j].1) && e.1.sent() =~= before[j].1.sent() + Seq::<T>::empty();
+        assert(tracked::<V, T>(before[jb], old, old_next, d));
+        if grew::<usize, V, T>(before[jb], old, d) {
+            let jo = choose|j: int| 0 <= j < old.len() && (#[trigger] old[j]).0 == before[jb].0 && same_peer::<V, T>(before[jb].1, old[j].1) && before[jb].1.sent() =~= old[j].1.sent() + d;
+            assert(e.1.sent() =~= old[jo].1.sent() + d);
+            assert(grew::<usize, V, T>(e, old, d));
+        } else {
+            let j = choose|j: int| 0 <= j <= d.len() && before[jb].1.sent() =~= #[trigger] d.subrange(j, d.len() as int);
+            assert(e.1.sent() =~= d.subrange(j, d.len() as int));
+            assert(joined::<V, T>(e, old_next, d));
+        }
+    }
+    assert forall|j: int| 0 <= j < old.len() && (#[trigger] old[j]).1.healthy() implies survives(old[j], cur) by {
+        assert(survives(old[j], before));
+        let w = choose|w: int| 0 <= w < before.len() && (#[trigger] before[w]).0 == old[j].0;
+        // before[w] has an old key, so it is not a joiner: it descends from old[j] itself and is healthy like it
+        assert(tracked::<V, T>(before[w], old, old_next, d));
+        assert(!joined::<V, T>(before[w], old_next, d));
+        let jo = choose|jo: int| 0 <= jo < old.len() && (#[trigger] old[jo]).0 == before[w].0 && same_peer::<V, T>(before[w].1, old[jo].1) && before[w].1.sent() =~= old[jo].1.sent() + d;
+        assert(jo == j);
+        assert(before[w].1.healthy());
+        assert(survives(before[w], cur));
+    }
+}
+
+// after start_send(it) on the fan-out
+pub proof fn lemma_after_send<V: VSink<T>, T: Clone>(cur: Seq<(usize, V)>, mid: Seq<(usize, V)>, old: Seq<(usize, V)>, old_next: usize, next: usize, d: Seq<T>, it: T)
+    requires
+        keys_distinct(old), keys_below(old, old_next), keys_below(mid, next), keys_distinct(mid),
+        forall|i: int| 0 <= i < mid.len() ==> tracked::<V, T>(#[trigger] mid[i], old, old_next, d),
+        healthy_survive::<usize, V, T>(old, mid),
+        forall|i: int| 0 <= i < cur.len() ==> fed::<usize, V, T>(#[trigger] cur[i], mid, it),
+        healthy_survive::<usize, V, T>(mid, cur),
+    ensures
+        forall|i: int| 0 <= i < cur.len() ==> tracked::<V, T>(#[trigger] cur[i], old, old_next, d.push(it)),
+        healthy_survive::<usize, V, T>(old, cur),
+        keys_below(cur, next),
+        all_coop_seq::<V, T>(mid) ==> all_coop_seq::<V, T>(cur),
+{
+    broadcast use clone_eq;
+    let d1 = d.push(it);
+    assert forall|i: int| 0 <= i < cur.len() implies tracked::<V, T>(#[trigger] cur[i], old, old_next, d1) && cur[i].0 < next
+        && (all_coop_seq::<V, T>(mid) ==> cur[i].1.cooperative()) by {
+        let e = cur[i];
+        let (jm, c) = choose|j: int, c: T| 0 <= j < mid.len() && (#[trigger] mid[j]).0 == e.0 && same_peer::<V, T>(e.1, mid[j].1) && (c == it || cloned(it, c))
+            && e.1.sent() == #[trigger] mid[j].1.sent().push(c) && e.1.flushed() == mid[j].1.flushed();
+        if c != it { clone_eq::<T>(it, c); }
+        assert(c == it);
+        assert(tracked::<V, T>(mid[jm], old, old_next, d));
+        if grew::<usize, V, T>(mid[jm], old, d) {
+            let jo = choose|j: int| 0 <= j < old.len() && (#[trigger] old[j]).0 == mid[jm].0 && same_peer::<V, T>(mid[jm].1, old[j].1) && mid[jm].1.sent() =~= old[j].1.sent() + d;
+            assert(e.1.sent() =~= old[jo].1.sent() + d1);
+            assert(grew::<usize, V, T>(e, old, d1));
+        } else {
+            let j = choose|j: int| 0 <= j <= d.len() && mid[jm].1.sent() =~= #[trigger] d.subrange(j, d.len() as int);
+            assert(e.1.sent() =~= d1.subrange(j, d1.len() as int));
+            assert(joined::<V, T>(e, old_next, d1));
+        }
+    }
+    assert forall|j: int| 0 <= j < old.len() && (#[trigger] old[j]).1.healthy() implies survives(old[j], cur) by {
+        assert(survives(old[j], mid));
+        let w = choose|w: int| 0 <= w < mid.len() && (#[trigger] mid[w]).0 == old[j].0;
+        assert(tracked::<V, T>(mid[w], old, old_next, d));
+        assert(!joined::<V, T>(mid[w], old_next, d));
+        let jo = choose|jo: int| 0 <= jo < old.len() && (#[trigger] old[jo]).0 == mid[w].0 && same_peer::<V, T>(mid[w].1, old[jo].1) && mid[w].1.sent() =~= old[jo].1.sent() + d;
+        assert(jo == j);
+        assert(survives(mid[w], cur));
+    }
+}
+
+// after adopting a new subscriber `si` under the fresh key k = next
+pub proof fn lemma_after_insert<V: VSink<T>, T>(cur: Seq<(usize, V)>, before: Seq<(usize, V)>, old: Seq<(usize, V)>, old_next: usize, k: usize, si: V, d: Seq<T>)
+    requires
+        keys_distinct(old), keys_below(old, old_next), keys_below(before, k), old_next <= k, k < usize::MAX,
+        forall|i: int| 0 <= i < before.len() ==> tracked::<V, T>(#[trigger] before[i], old, old_next, d),
+        healthy_survive::<usize, V, T>(old, before),
+        si.sent() =~= Seq::<T>::empty(),
+        forall|i: int| 0 <= i < cur.len() ==> (#[trigger] cur[i]) == (k, si) || same(cur[i], before),
+        forall|j: int| 0 <= j < before.len() && (#[trigger] before[j]).0 != k ==> same(before[j], cur),
+    ensures
+        forall|i: int| 0 <= i < cur.len() ==> tracked::<V, T>(#[trigger] cur[i], old, old_next, d),
+        healthy_survive::<usize, V, T>(old, cur),
+        keys_below(cur, (k + 1) as usize),
+        all_coop_seq::<V, T>(before) && si.cooperative() ==> all_coop_seq::<V, T>(cur),
+{
+    assert forall|i: int| 0 <= i < cur.len() implies tracked::<V, T>(#[trigger] cur[i], old, old_next, d) && cur[i].0 < k + 1
+        && (all_coop_seq::<V, T>(before) && si.cooperative() ==> cur[i].1.cooperative()) by {
+        if cur[i] == (k, si) {
+            assert(si.sent() =~= d.subrange(d.len() as int, d.len() as int));
+            assert(joined::<V, T>(cur[i], old_next, d));
+        } else {
+            let w = choose|w: int| 0 <= w < before.len() && #[trigger] before[w] == cur[i];
+            assert(tracked::<V, T>(before[w], old, old_next, d));
+        }
+    }
+    assert forall|j: int| 0 <= j < old.len() && (#[trigger] old[j]).1.healthy() implies survives(old[j], cur) by {
+        assert(survives(old[j], before));
+        let w = choose|w: int| 0 <= w < before.len() && (#[trigger] before[w]).0 == old[j].0;
+        assert(same(before[w], cur));
+        let i = choose|i: int| 0 <= i < cur.len() && #[trigger] cur[i] == before[w];
+        assert(cur[i].0 == old[j].0);
+    }
+}
+
 } // verus!
 fn main() {}
